@@ -198,6 +198,16 @@ def gen_dec_cases(ctx):
         for t in (b"A" * n, b"A" * n + b"\0", b"A" * n + b"=\n\0", b"=" * n + b"\0", bytes(rng.choice(cc.ALPHA) for _ in range(n)) + b"\0",
                   (b"AAAAAAAAAAB6" + b"A" * n)[:n] + b"=\n\0"):
             cases.append(dict(line=dec_line((0, 1, 1, 0), 64, t), text=t, kind=(0, 1, 1, 0), maxsz=64, tag="lengths"))
+    # structure-aware DEFLATE header fuzz inside a proper zlib + armor wrapper (declared sizes small and plausible)
+    for _ in range(500 if ctx.quick else 6000):
+        raw, tag = fuzz_deflate(rng)
+        ns = rng.choice([0, 1, 5, 16, 100, 300, 1000])
+        comp = bytes([0x78, rng.choice([0x9c, 0x01, 0xda])]) + raw + bytes(rng.getrandbits(8) for _ in range(4))
+        add(text_of(ns, comp, 61), tag, nk=1, size_hint=ns)
+    for hx_ in PUFF_REGRESSION:
+        raw = bytes.fromhex(hx_)
+        for extra in (b"", bytes(600), bytes([255]) * 600):
+            add(text_of(rng.choice([0, 1, 16, 300]), b"\x78\x9c" + raw + extra + b"\0\0\0\1", 61), "puff-regression", kind=(0, 1, 1, 0), maxsz=0)
     # every byte value once inside an otherwise valid text (all indices of the decoding table and both sides of it)
     base_t = text_of(40, zlib.compress(bytes(range(40)), 9), 61)
     for c in range(256):
@@ -270,6 +280,180 @@ def judge_dec(ctx, c, out, variant):
 
 
 # ---------------------------------------------------------------------------------------------------------
+# structure-aware DEFLATE header fuzz (RFC 1951): raw deflate streams built bit by bit
+# ---------------------------------------------------------------------------------------------------------
+class BitWriter:
+    def __init__(self):
+        self.acc = 0
+        self.n = 0
+        self.out = bytearray()
+
+    def bits(self, v, k):                  # k bits of v, least significant first (header fields, extra bits)
+        for i in range(k):
+            self.acc |= ((v >> i) & 1) << self.n
+            self.n += 1
+            if self.n == 8:
+                self.out.append(self.acc); self.acc = 0; self.n = 0
+
+    def code(self, c, k):                  # a Huffman code of k bits, most significant first
+        for i in range(k - 1, -1, -1):
+            self.bits((c >> i) & 1, 1)
+
+    def done(self):
+        if self.n:
+            self.out.append(self.acc); self.acc = 0; self.n = 0
+        return bytes(self.out)
+
+
+def canonical(lengths):
+    """symbol -> (code, length) of the canonical Huffman code of RFC 1951 3.2.2 (whatever the lengths: may be
+    incomplete or over-subscribed - then the codes are simply what the construction gives)"""
+    maxl = max(lengths + [0])
+    bl = [0] * (maxl + 2)
+    for l in lengths:
+        if l:
+            bl[l] += 1
+    code = 0
+    nxt = [0] * (maxl + 2)
+    for b in range(1, maxl + 1):
+        code = (code + bl[b - 1]) << 1
+        nxt[b] = code
+    res = {}
+    for sym, l in enumerate(lengths):
+        if l:
+            res[sym] = (nxt[l] & ((1 << l) - 1), l)
+            nxt[l] += 1
+    return res
+
+
+CLC_ORDER = [16, 17, 18, 0, 8, 7, 9, 6, 10, 5, 11, 4, 12, 3, 13, 2, 14, 1, 15]
+# inputs of the test targets of zlib's contrib/puff (coverage of every error return), as far as known
+PUFF_REGRESSION = ["04", "00", "0000000000", "000100feff", "010100feff0a", "027effff", "02", "0480499224499224 0fb4ffffc304".replace(" ", ""),
+                   "048049922449922471ffff931100", "04c081080000000020 7feb0b0000".replace(" ", ""), "0b0000", "1a07",
+                   "0cc08100000000009 0ff6b04".replace(" ", ""), "fcfe36e75e1cefb3555877b66ddfb9bdee9f521f9221b49d824742ea0200", "0400feff", "04002449",
+                   "04804992244992240fb4ffffc384", "040024e9ffff", "040024e9ff6d", "030000", "0300", "03", "05", "0500", "050000", "05000000",
+                   "06", "07", "ff", "0c", "0d", "e5e0810000000000" ]
+
+
+def clc_lengths(rng, shape):
+    """19 code-length-code lengths (0..7) of a given shape"""
+    l = [0] * 19
+    syms = list(range(19))
+    rng.shuffle(syms)
+    if shape == "zero":
+        pass
+    elif shape == "single":
+        l[syms[0]] = rng.choice([1, 1, 2, 7])
+    elif shape == "two1":
+        l[syms[0]] = l[syms[1]] = 1
+    elif shape == "complete":
+        pat = rng.choice([[1, 2, 2], [2, 2, 2, 2], [1, 2, 3, 3], [1, 1], [2, 2, 2, 3, 3], [1, 2, 3, 4, 4], [3] * 8, [1, 2, 3, 4, 5, 6, 7, 7],
+                          [2, 2, 3, 3, 3, 3], [4] * 16, [2, 3, 3, 3, 3, 3, 4, 4]])
+        # make sure the interesting symbols (repeat codes, small lengths) are often present
+        pref = rng.sample([16, 17, 18, 0, 1, 2, 3, 8], min(len(pat), rng.randrange(0, 6)))
+        chosen = pref + [x for x in syms if x not in pref]
+        for sym, ln in zip(chosen, pat):
+            l[sym] = ln
+    elif shape == "over":
+        pat = rng.choice([[1, 1, 1], [1, 1, 2], [2, 2, 2, 2, 2], [1, 2, 2, 3], [3] * 9, [1, 2, 3, 3, 3]])
+        for sym, ln in zip(syms, pat):
+            l[sym] = ln
+    elif shape == "incomplete":
+        pat = rng.choice([[2], [1, 2], [2, 2, 2], [3, 3], [1, 3, 3, 7], [2, 3]])
+        for sym, ln in zip(syms, pat):
+            l[sym] = ln
+    else:
+        l = [rng.randrange(8) if rng.random() < 0.7 else 0 for _ in range(19)]
+    return l
+
+
+def fuzz_deflate(rng):
+    """one raw deflate stream with a structured (and usually malformed) header; returns (bytes, tag)"""
+    w = BitWriter()
+    btype = rng.choice([2, 2, 2, 2, 2, 2, 0, 1, 1, 3])
+    w.bits(rng.choice([1, 1, 0]), 1)
+    w.bits(btype, 2)
+    tag = "hdr:type%d" % btype
+    if btype == 0:
+        data = bytes(rng.getrandbits(8) for _ in range(rng.choice([0, 1, 5, 100])))
+        ln = rng.choice([len(data), len(data), len(data) + 1, max(0, len(data) - 1), 0, 65535, 300])
+        nl = rng.choice([ln ^ 0xffff, ln ^ 0xffff, ln, (ln ^ 0xffff) ^ 1, (ln ^ 0xffff) ^ 0x8000, 0])
+        w.bits(rng.getrandbits(5), 5)                      # the bits skipped up to the byte boundary
+        w.bits(ln, 16); w.bits(nl, 16)
+        body = w.done() + data
+    elif btype == 1:
+        # fixed codes: a few literals / end of block / the invalid symbols 286, 287 (8-bit codes 11000110, 11000111),
+        # length codes with the invalid distance codes 30, 31, distances reaching before the start
+        for _ in range(rng.randrange(0, 6)):
+            k = rng.random()
+            if k < 0.4:
+                w.code(0x30 + rng.randrange(144), 8)        # literal 0..143
+            elif k < 0.55:
+                w.code(0xc6 + rng.randrange(2), 8)          # symbols 286 / 287
+            elif k < 0.85:
+                w.code(rng.randrange(1, 24), 7)             # length symbols 257..279
+                w.bits(rng.getrandbits(5), rng.choice([0, 0, 1, 2]))
+                w.code(rng.choice([0, 1, 2, 3, 4, 10, 29, 30, 31]), 5)
+                w.bits(rng.getrandbits(13), rng.choice([0, 0, 1, 3, 13]))
+            else:
+                w.code(0, 7)                                # end of block
+        body = w.done()
+    elif btype == 3:
+        body = w.done()
+    else:
+        hlit = rng.choice([0, 0, 1, 29, 30, 31, rng.randrange(32)])
+        hdist = rng.choice([0, 0, 1, 29, 30, 31, rng.randrange(32)])
+        hclen = rng.choice([0, 0, 15, 15, rng.randrange(16)])
+        w.bits(hlit, 5); w.bits(hdist, 5); w.bits(hclen, 4)
+        shape = rng.choice(["zero", "zero", "single", "two1", "complete", "complete", "complete", "over", "incomplete", "random"])
+        tag = "hdr:dyn-" + shape
+        l = clc_lengths(rng, shape)
+        if shape == "zero":
+            hclen_used = hclen
+        for i in range(hclen + 4):
+            w.bits(l[CLC_ORDER[i]], 3)
+        seen = [l[CLC_ORDER[i]] if i < hclen + 4 else 0 for i in range(19)]
+        eff = [0] * 19
+        for i in range(19):
+            eff[CLC_ORDER[i]] = seen[i]
+        codes = canonical(eff)
+        total = hlit + 257 + hdist + 1
+        if codes and shape in ("complete", "two1", "single", "random", "incomplete") and rng.random() < 0.85:
+            # code lengths written with the code length code: literal lengths, repeat instructions (16 first, runs that
+            # overshoot the total, 17/18 zero runs), stopping early / exactly / late
+            avail = sorted(codes)
+            count = 0
+            first = True
+            stop = rng.choice([total, total, total + 3, max(0, total - 1), rng.randrange(0, total + 1)])
+            guard = 0
+            while count < stop and guard < 400:
+                guard += 1
+                if first and 16 in codes and rng.random() < 0.3:
+                    sym = 16
+                elif rng.random() < 0.25 and any(x in codes for x in (16, 17, 18)):
+                    sym = rng.choice([x for x in (16, 17, 18) if x in codes])
+                else:
+                    sym = rng.choice(avail)
+                first = False
+                c, k = codes[sym]
+                w.code(c, k)
+                if sym == 16:
+                    r = rng.choice([0, 3, rng.randrange(4)]); w.bits(r, 2); count += 3 + r
+                elif sym == 17:
+                    r = rng.choice([0, 7, rng.randrange(8)]); w.bits(r, 3); count += 3 + r
+                elif sym == 18:
+                    r = rng.choice([0, 127, rng.randrange(128)]); w.bits(r, 7); count += 11 + r
+                else:
+                    count += 1
+            tag += "+lengths"
+        body = w.done()
+    tail_kind = rng.choice(["rnd", "rnd", "zero", "ff"])
+    tn = rng.choice([0, 0, 1, 4, 20, 100, 483, 484, 485, 500, 800, rng.randrange(0, 801)])
+    tail = bytes(rng.getrandbits(8) for _ in range(tn)) if tail_kind == "rnd" else bytes([0 if tail_kind == "zero" else 255]) * tn
+    return body + tail, tag
+
+
+# ---------------------------------------------------------------------------------------------------------
 # sc_puff on raw deflate streams
 # ---------------------------------------------------------------------------------------------------------
 def gen_puff_cases(ctx):
@@ -318,6 +502,17 @@ def gen_puff_cases(ctx):
         s = bytes(rng.getrandbits(8) for _ in range(k))
         first = rng.choice([0x05, 0x03, 0x01, 0x04, 0x02, 0x00, 0x0d, 0xed, 0xbd])     # favour dynamic / fixed / stored headers
         add(0, rng.choice([0, 10, 300, 70000]), bytes([first]) + s, k + 1, "garbage")
+    # structure-aware header fuzz and the regression inputs of zlib's contrib/puff
+    for _ in range(1500 if ctx.quick else 20000):
+        s, tag = fuzz_deflate(rng)
+        add(rng.choice([0, 0, 0, 1]), rng.choice([0, 16, 300, 2000]), s, len(s), tag)
+    for hx_ in PUFF_REGRESSION:
+        s = bytes.fromhex(hx_)
+        for dl in (0, 1, 16, 1000):
+            add(0, dl, s, len(s), "puff-regression")
+        add(1, 0, s, len(s), "puff-regression")
+        add(0, 300, s + bytes(600), len(s) + 600, "puff-regression+zeros")
+        add(0, 300, s + bytes([255]) * 600, len(s) + 600, "puff-regression+ff")
     return cases
 
 
@@ -480,6 +675,9 @@ def run(ctx):
     for k, c in enumerate(pcases):
         i = nd + ni + k
         dist["puff:" + c["tag"]] = dist.get("puff:" + c["tag"], 0) + 1
+        rcs = ctx.notes.setdefault("puff_return_codes", {})
+        rk = (outs["nz"][i] or "?").split(" ")[0]
+        rcs[rk] = rcs.get(rk, 0) + 1
         ctx.count_case(("puff", c["line"]), nontrivial=len(c["src"]) > 1)
         mo = model[i]
         for v in ("z", "nz"):
@@ -506,7 +704,10 @@ def run(ctx):
                        "huge sizes, format character, compressed stream flip/truncate/extend, over- and undersized streams, zlib header variants, "
                        "broken stored blocks, break-only lines, moved padding, 75-character lines) x output kinds (owner / view of smaller, equal, larger capacity / in place; "
                        "element sizes 1,2,3,4,7,8) x maxima; every string of length <= %d over {NUL,'A','=','\\n'}; six shapes of every length 0..200; sc_puff on raw deflate "
-                       "streams of six strategies with every single-bit flip (short streams), every truncation, short destinations, scanning mode, all 256 first bytes, random garbage. "
+                       "streams of six strategies with every single-bit flip (short streams), every truncation, short destinations, scanning mode, all 256 first bytes, random garbage; "
+                       "structure-aware DEFLATE header fuzz (block types 0..3, random HLIT/HDIST/HCLEN, code-length codes all-zero / single / two of length 1 / complete / over-subscribed / "
+                       "incomplete / random, length sequences with repeat codes first and overshooting runs, tails of 0..800 random/zero/0xff bytes) directly and inside a zlib+armor wrapper; "
+                       "the regression inputs of zlib's contrib/puff. "
                        "A case is non-trivial if its text has more than 3 bytes; distinct = distinct case lines" % (5 if ctx.quick else 7))
     ctx.cov["exhaustive"] = False
     ctx.notes["case_distribution"] = dist
